@@ -88,6 +88,33 @@ pub fn run(ctx: &mut Ctx) {
         cases.push(c);
         metas.push((k, r, sb, engine, high, originals, marks));
     }
+    // large configurations reachable by only one of the two rates (one count above 32768), reached by RESET from a small
+    // configuration of either rate: what `new` accepts `reset` accepts, on encoders and decoders alike (no data: the
+    // answers of the calls are what is compared)
+    let mut big_cases = vec![];
+    for (bk, br) in [(100usize, 40000usize), (40000, 100), (1, 65535), (65535, 1), (3, 32769), (32769, 3), (20000, 17000)] {
+        for (sk, sr) in [(3usize, 2usize), (2, 3)] {
+            for obj in ["E", "D"] {
+                for kind in ["default", "rs"] {
+                    let mut c = Case::new(&format!("reset-into-{}:{}", bk, br));
+                    c.with_model = false;
+                    c.push(format!("{} new {} default {} {} 2", obj, kind, bk, br));
+                    c.push(format!("{} new {} default {} {} 2", obj, kind, sk, sr));
+                    c.push(format!("{} reset {} {} 2", obj, bk, br));
+                    big_cases.push(c);
+                }
+            }
+        }
+    }
+    let big_runs = ctx.run_cases(&big_cases);
+    for (c, run) in big_cases.iter().zip(big_runs.iter()) {
+        ctx.count("history", "reset-into-one-rate-only-configuration");
+        let fresh = run.answers[0].line();
+        let reset = run.answers[2].line();
+        if fresh != reset {
+            ctx.oracle_fail(format!("`new` answers `{}` but `reset` into the same configuration answers `{}` ({})", crate::ctx::short(&fresh), crate::ctx::short(&reset), c.lines[2]), c, Some(2));
+        }
+    }
     let runs = ctx.run_cases(&cases);
     // decoding side: default decoder (fresh or after a crossing reset) on dedicated-encoded shards
     let mut dcases = vec![];
